@@ -295,7 +295,7 @@ func (c *Channel) Invoke(ctx context.Context, method string, req, resp interface
 			}
 			switch {
 			case r.err != nil:
-				return internal.TranslateContextError(r.err)
+				return translateHandlerError(r.err)
 			case r.data != nil:
 				if gotResponse {
 					return status.Error(codes.Internal, "server sent unexpected response message")
@@ -726,7 +726,7 @@ func (s *inProcessClientStream) recvMsgLocked(m interface{}, lastMessage bool) e
 			return err
 		case kindError:
 			s.state = streamStateClosed
-			return internal.TranslateContextError(s.last.err)
+			return translateHandlerError(s.last.err)
 		}
 	}
 
@@ -749,7 +749,7 @@ func (s *inProcessClientStream) recvMsgLocked(m interface{}, lastMessage bool) e
 		case kindError:
 			s.state = streamStateClosed
 			s.last = &r
-			return internal.TranslateContextError(r.err)
+			return translateHandlerError(r.err)
 		case kindData:
 			err := s.cloner.Copy(m, r.data)
 			if err == nil && lastMessage {
@@ -771,6 +771,18 @@ func (s *inProcessClientStream) ensureNoMoreLocked(m interface{}) error {
 		return err
 	}
 	return nil
+}
+
+// translateHandlerError converts an error that the server handler returned
+// into the error that the client reports for it.
+func translateHandlerError(err error) error {
+	if err == io.EOF {
+		// To the caller io.EOF means that the stream completed normally, but
+		// a handler that returns it has failed: report what the caller would
+		// see had the call gone through a gRPC server.
+		return status.Error(codes.Unknown, err.Error())
+	}
+	return internal.TranslateContextError(err)
 }
 
 func readMessage(ctx context.Context, ch <-chan frame) (frame, error) {
